@@ -197,7 +197,7 @@ func c01(c *Ctx) {
 			arg := cfgx.CallArgs(x)[0]
 			fromObserved := obs != nil && flow.Default.Any(arg, func(v ssa.Value) bool {
 				lk, ok := v.(*ssa.Lookup)
-				return ok && lk.X == obs
+				return ok && sole(lk.X) == sole(obs)
 			})
 			if !fromObserved {
 				continue
@@ -216,7 +216,7 @@ func c01(c *Ctx) {
 				var foundE []cfgx.Edge
 				for _, b := range fc.Blocks {
 					for _, in := range b.Instrs {
-						if lk, ok := in.(*ssa.Lookup); ok && lk.X == obs && lk.CommaOk {
+						if lk, ok := in.(*ssa.Lookup); ok && sole(lk.X) == sole(obs) && lk.CommaOk {
 							if okv := extractOf(lk, 1); okv != nil {
 								t, _ := cfgx.CondEdges(okv)
 								foundE = append(foundE, t...)
@@ -254,7 +254,7 @@ func c01(c *Ctx) {
 				"the name read before unmarshalling the base is restored afterwards", "the name is not read before / restored after unmarshalling the template base")
 			c.requireCross(site(sn)+" after-unmarshal", sn, okEdges(um[0]), "ok(json.Unmarshal)")
 			// every normal return after a successful unmarshal passes SetName
-			c.R.Check(sn.Block().Dominates(lastReturnBlock(rj)), load.FuncName(rj)+": SetName dominates success return", c.pos(sn.Pos()), "SetName dominates the success return", "a success return is not dominated by the name restore")
+			c.R.Check(cfgx.MustPass(sn.Block(), lastReturnBlock(rj)), load.FuncName(rj)+": SetName dominates success return", c.pos(sn.Pos()), "SetName dominates the success return", "a success return is not dominated by the name restore")
 		}
 	}
 	if pt != nil {
@@ -290,7 +290,7 @@ func c01(c *Ctx) {
 			arg := flow.Root(cfgx.CallArgs(set)[0])
 			good := false
 			for _, s := range sorts {
-				if s.Block().Dominates(set.Block()) && flow.Default.Any(s.Common().Args[0], func(v ssa.Value) bool { return v == arg || flow.Root(v) == arg }) {
+				if cfgx.MustPass(s.Block(), set.Block()) && flow.Default.Any(s.Common().Args[0], func(v ssa.Value) bool { return v == arg || flow.Root(v) == arg }) {
 					good = true
 				}
 			}
@@ -312,7 +312,7 @@ func c01(c *Ctx) {
 				return ok && rg.X == desired
 			}), site(s.creates[0])+" same-collection", c.pos(s.creates[0].Pos()), "the applied objects range over the collection whose references were persisted", "the apply loop does not range over the collection UpdateResourceRefs recorded")
 			c.R.Check(flow.Root(underIface(cfgx.CallArgs(ur[0])[0])) == flow.Root(underIface(cfgx.CallArgs(s.refsW[0])[1])), site(s.refsW[0])+" writes-updated-refs", c.pos(s.refsW[0].Pos()), "the XR object written is the one UpdateResourceRefs filled", "the XR object written is not the one that received the references")
-			c.R.Check(cfgx.InstrReaches(ur[0], s.refsW[0], nil) && ur[0].Block().Dominates(s.refsW[0].Block()), site(ur[0])+" before-write", c.pos(ur[0].Pos()), "UpdateResourceRefs dominates the write", "the references are not set before the XR is written")
+			c.R.Check(cfgx.InstrReaches(ur[0], s.refsW[0], nil) && cfgx.MustPass(ur[0].Block(), s.refsW[0].Block()), site(ur[0])+" before-write", c.pos(ur[0].Pos()), "UpdateResourceRefs dominates the write", "the references are not set before the XR is written")
 		} else {
 			c.R.Unknown(load.FuncName(fc)+": UpdateResourceRefs", c.pos(fc.Pos()), "expected one UpdateResourceRefs call")
 		}
@@ -351,7 +351,7 @@ func c01(c *Ctx) {
 		}
 		s := sites[pt]
 		if setRefs != nil && len(s.refsW) == 1 {
-			c.R.Check(setRefs.Block().Dominates(s.refsW[0].Block()) && cfgx.InstrReaches(setRefs, s.refsW[0], nil), site(setRefs)+" before-update", c.pos(setRefs.Pos()), "SetResourceReferences dominates the XR Update", "the XR is updated without the new references")
+			c.R.Check(cfgx.MustPass(setRefs.Block(), s.refsW[0].Block()) && cfgx.InstrReaches(setRefs, s.refsW[0], nil), site(setRefs)+" before-update", c.pos(setRefs.Pos()), "SetResourceReferences dominates the XR Update", "the XR is updated without the new references")
 		} else {
 			c.R.Unknown(load.FuncName(pt)+": SetResourceReferences", c.pos(pt.Pos()), "not found")
 		}
